@@ -160,6 +160,69 @@ def main(ck, tier, w):
         if probs:
             ck.violation('; '.join(probs), {'scenario': {'blocks': n, 'first_height': h0, 'cb': cb, 'start': s, 'end': e},
                                             'observed': r.brief(), 'trace_verdict': v, 'tags': []})
+    # --- ranges over indexes that are not a plain line: the range never influences WHICH chain is the active one, so every
+    # ranged csvdump is the slice of the whole-chain csvdump. Competing branches that are higher than the active chain but
+    # unusable (an ancestor known by header only / failed), stale lower forks, orphaned records.
+    from checks import c04
+    A = 7 if quick else 10       # active chain 0..A-1
+
+    def shape(kind, fp, gap):
+        # gap < A: the usable part of the competing branch stays below the active tip, so the active chain is 0..A-1
+        recs = [{'id': h, 'h': h, 'prev': h - 1, 'data': True, 'valid': 5, 'failed': False} for h in range(A)]
+        nid = 100
+        if kind in ('hdr', 'failed'):
+            prev = fp
+            for h in range(fp + 1, A + 3):
+                bad = h == gap
+                recs.append({'id': nid, 'h': h, 'prev': prev, 'data': not (bad and kind == 'hdr'), 'valid': 2 if bad and kind == 'hdr' else 3,
+                             'failed': kind == 'failed' and h >= gap})
+                prev = nid
+                nid += 1
+        elif kind == 'stale':
+            prev = fp
+            for h in range(fp + 1, min(fp + 3, A - 1)):
+                recs.append({'id': nid, 'h': h, 'prev': prev, 'data': True, 'valid': 3, 'failed': False})
+                prev = nid
+                nid += 1
+        return {'recs': recs, 'tip': A - 1, 'active': list(range(A))}
+    fjobs = []
+    for kind in ('hdr', 'failed', 'stale'):
+        for fp, gap in ([(1, 2), (2, 4), (0, A - 1)] if quick else [(f, g) for f in range(0, 5) for g in range(f + 1, A)]):
+            for variant in (0, 1):
+                fjobs.append((kind, fp, gap, variant))
+
+    def fjob(j):
+        kind, fp, gap, variant = j
+        rec = shape(kind, fp, gap)
+        d, blocks = c04.build_index(w, rec, variant)
+        chain = [(h, blocks[h]) for h in range(A)]
+        out = []
+        ranges = [(None, None)] + [(s_, e_) for s_ in range(0, A) for e_ in (None, s_ + 1, A - 2, A + 1) if e_ is None or e_ > s_]
+        if quick:
+            ranges = ranges[:1] + random.Random('%s-%s' % (j, run.seed())).sample(ranges[1:], 8)
+        for s_, e_ in ranges:
+            r = run.run_parser(d.path, 'csvdump', dump=w.mk('out'), start=s_, end=e_, verify=(s_ or 0) % 2 == 0)
+            lo, hi = s_ or 0, min(e_ if e_ is not None else A - 1, A - 1)
+            exp, _ = ref.csv_expected(chain[lo:hi + 1], 'bitcoin')
+            probs = []
+            if r.rc != 0:
+                probs.append('exit %d: %s' % (r.rc, r.stderr[-200:]))
+            else:
+                for f in FILECB['csvdump']:
+                    name = '%s-%d-%d.csv' % (f, lo, hi)
+                    if r.files.get(name) != exp[f]:
+                        probs.append('%s is not the slice %d..%d of the whole-chain result (dump folder: %s; heights/hashes in blocks file: %s)'
+                                     % (name, lo, hi, r.listing, chains.csv_col(next((v for k, v in r.files.items() if k.startswith('blocks')), b''), 1)))
+            out.append(((s_, e_), probs, r))
+        return j, rec, out
+    for j, rec, out in chains.pmap(fjob, fjobs, 8):
+        for (s_, e_), probs, r in out:
+            ck.evals()
+            ck.traces()
+            ck.distinct(('fork-range', j, s_, e_))
+            if probs:
+                ck.violation('index with a %s branch (fork point %d, defect at height %d), --start %s --end %s: %s' % (j[0], j[1], j[2], s_, e_, '; '.join(probs[:3])),
+                             {'records': rec['recs'], 'start': s_, 'end': e_, 'observed': r.brief(), 'tags': []})
     ck.assumptions += ['start <= tip for the naming clause (above the tip nothing is processed and "last" is undefined)',
                        'encoders / LevelDB writer in /verif/lib are the trusted base']
 
